@@ -56,7 +56,7 @@ inline bool m_flattable(MV const& m) {  // the two leading dimensions are laid o
 inline MV m_flatted(MV const& m) { L s1 = m.size[1]; return gather(m, cat({m.size[0] * s1}, rest(m, 2)), [&](std::vector<L> ix) { L i = ix[0]; ix[0] = i % s1; ix.insert(ix.begin(), i / s1); return ix; }); }
 
 // call syntax: per-dimension argument: kind 0 = index i, 1 = range [a,b), 2 = all; fewer args than D means trailing "all"
-struct CallArg { int kind; L a, b; };
+struct CallArg { int kind; L a, b; int dim = 0; };
 inline MV m_call(MV const& m, std::vector<CallArg> const& args) {
 	std::vector<L> ns; std::vector<int> src;  // for each new dim: which old dim
 	for(std::size_t d = 0; d < m.size.size(); ++d) { CallArg c = d < args.size() ? args[d] : CallArg{2, 0, 0};
